@@ -50,7 +50,8 @@ Record Rg (env : fenv) (s : rstate) (g : gstate) : Prop := {
   Rg_base : skipn (length (locals env)) (frames g) = base;
   Rg_un : forall x, lookup_scopes x (locals env) <> None -> uname x;
   Rg_ns : NS (locals env);
-  Rg_pins : Forall (pin_ok env g) pins
+  Rg_pins : Forall (pin_ok env g) pins;
+  Rg_nd : frames_nd (frames g)
 }.
 
 (* between statements: operand stack empty, special_scopes >= number of open blocks *)
@@ -114,9 +115,9 @@ Proof. intros f e H. destruct f; cbn in *; auto; contradiction. Qed.
 Lemma bound_in_eq : forall B env env', bound_in B env -> locals env' = locals env -> bound_in B env'.
 Proof. intros B env env' H E x. rewrite E. apply H. Qed.
 
-Lemma Rg_ext : forall env s g g' d lo hi, Rg env s g -> ext d lo hi g g' -> Rg env s g'.
+Lemma Rg_ext : forall env s g g' d lo hi, Rg env s g -> ext d lo hi g g' -> frames_nd (frames g') -> Rg env s g'.
 Proof.
-  intros env s g g' d lo hi [Hfr Hb Hc Ho Hbase Hun Hns Hpins] He.
+  intros env s g g' d lo hi [Hfr Hb Hc Ho Hbase Hun Hns Hpins Hnd] He Hnd'.
   destruct (ext_cells _ _ _ _ _ He) as [extra Ec].
   pose proof (ext_labs _ _ _ _ _ He) as Hl. pose proof (ext_tail _ _ _ _ _ He) as Ht.
   pose proof (ext_find _ _ _ _ _ He) as Hf. pose proof (ext_out _ _ _ _ _ He) as Hout.
@@ -135,6 +136,7 @@ Proof.
   - exact Hun.
   - exact Hns.
   - unfold pin_ok in *. cbn [cells frames locals] in *. apply pins_mono_. eapply pins_top_; eassumption.
+  - exact Hnd'.
 Qed.
 
 Lemma Rg_ne : forall env s g, Rg env s g -> locals env <> [].
@@ -142,7 +144,7 @@ Proof. intros env s g H. exact (proj1 (Rfr_ne _ _ _ _ (Rg_fr _ _ _ H))). Qed.
 
 Lemma Rg_Renv : forall env s a g, Rg env s g -> Renv env s a g.
 Proof.
-  intros env s a g [Hfr _ Hc _ _ Hun _ _] x c v _ Hl Hg Hfo. rewrite Hc, app_nil_r in Hl.
+  intros env s a g [Hfr _ Hc _ _ Hun _ _ _] x c v _ Hl Hg Hfo. rewrite Hc, app_nil_r in Hl.
   assert (Hx : uname x) by (apply Hun; congruence).
   pose proof (Rfr_look _ _ _ _ Hfr x Hx) as H. rewrite Hl in H.
   destruct (find_in_function x (frames g)) as [c'|] eqn:E; [|contradiction]. cbn [orel] in H.
@@ -152,7 +154,7 @@ Qed.
 
 Lemma Rg_var_ok : forall env s g x, Rg env s g -> uname x -> lookup_scopes x (locals env) <> None -> var_ok env s x.
 Proof.
-  intros env s g x [Hfr _ Hc _ _ _ _ _] Hx Hb. split; [now apply uname_src|].
+  intros env s g x [Hfr _ Hc _ _ _ _ _ _] Hx Hb. split; [now apply uname_src|].
   pose proof (Rfr_look _ _ _ _ Hfr x Hx) as H.
   destruct (lookup_scopes x (locals env)) as [c|] eqn:E; [|congruence].
   destruct (find_in_function x (frames g)) as [c'|]; [|contradiction]. destruct H as (v & H1 & Hf & _).
@@ -165,7 +167,7 @@ Lemma Rg_lookup : forall env s g x, Rg env s g -> uname x -> lookup_scopes x (lo
                  pairs (locals env) (frames g) c c' /\
                  sget s c = Some v /\ first_order v /\ cell_get g c' = Some (inj v).
 Proof.
-  intros env s g x [Hfr _ _ _ _ _ _ _] Hx Hb.
+  intros env s g x [Hfr _ _ _ _ _ _ _ _] Hx Hb.
   pose proof (Rfr_look _ _ _ _ Hfr x Hx) as H.
   destruct (lookup_scopes x (locals env)) as [c|] eqn:E; [|congruence].
   destruct (find_in_function x (frames g)) as [c'|] eqn:E'; [|contradiction]. destruct H as (v & H1 & Hf & H2).
@@ -181,7 +183,7 @@ Lemma store_rel : forall env s g x v env' s', Rg env s g -> uname x -> first_ord
              (forall y, lookup_scopes y (locals env') <> None <-> (y = x \/ lookup_scopes y (locals env) <> None)) /\
              tl (frames g') = tl (frames g).
 Proof.
-  intros [l cap cu] [st ro] [cs fs o tr] x v env' s' [Hfr Hb Hc Ho Hbase Hun Hns Hpins] Hx Hfo Ha.
+  intros [l cap cu] [st ro] [cs fs o tr] x v env' s' [Hfr Hb Hc Ho Hbase Hun Hns Hpins Hnd] Hx Hfo Ha.
   cbn [locals captured store rout cells frames out] in *.
   pose proof (Rfr_look _ _ _ _ Hfr x Hx) as Hl. unfold assign in Ha. unfold store_var.
   cbn [locals frames] in *.
@@ -208,6 +210,7 @@ Proof.
         rewrite assoc_set_other in Hy by exact Hne. apply Hun. exact Hy.
       * apply NS_declare; assumption.
       * unfold pin_ok in *. cbn [cells frames locals] in *. apply pins_declare_. exact Hpins.
+      * apply (nd_top f fs); [exact Hnd|]. apply keys_nd_assoc_set. inversion Hnd; assumption.
     + split; [reflexivity|discriminate].
     + intros y. cbn [lookup_scopes]. destruct (list_eq_dec N.eq_dec y x) as [->|Hne].
       * rewrite assoc_set_same. split; [auto|discriminate].
@@ -219,7 +222,7 @@ Qed.
 Lemma update_rel : forall env s g c c' v, Rg env s g -> pairs (locals env) (frames g) c c' -> first_order v ->
   Rg env (sset s c v) (cell_set g c' (inj v)).
 Proof.
-  intros [l cap cu] [st ro] [cs fs o tr] c c' v [Hfr Hb Hc Ho Hbase Hun Hns Hpins] Hp Hfo.
+  intros [l cap cu] [st ro] [cs fs o tr] c c' v [Hfr Hb Hc Ho Hbase Hun Hns Hpins Hnd] Hp Hfo.
   cbn [locals captured store rout cells frames out] in *.
   destruct (cellrel_valid _ _ _ _ (pairs_cellrel _ _ _ _ _ _ Hfr Hp)) as [V1 V2].
   constructor; cbn [sset cell_set store cells frames out rout locals captured]; try assumption.
@@ -230,12 +233,13 @@ Qed.
 (* ---------------------------------------------------------------- blocks: push / pop *)
 Lemma push_rel : forall env s g lb, Rg env s g -> special lb = true -> Rg (push_scope env) s (push_frame g lb).
 Proof.
-  intros [l cap cu] [st ro] [cs fs o tr] lb [Hfr Hb Hc Ho Hbase Hun Hns Hpins] Hs.
+  intros [l cap cu] [st ro] [cs fs o tr] lb [Hfr Hb Hc Ho Hbase Hun Hns Hpins Hnd] Hs.
   constructor; cbn [push_scope push_frame with_frames locals captured store rout cells frames out] in *; try assumption.
   - apply Rfr_push; assumption.
   - apply bij_push; assumption.
   - apply NS_push; assumption.
   - unfold pin_ok in *. cbn [cells frames locals] in *. apply pins_push_; assumption.
+  - constructor; [constructor|exact Hnd].
 Qed.
 
 Lemma popn_rel : forall m env s g, Rg env s g -> m < length (locals env) ->
@@ -244,7 +248,7 @@ Lemma popn_rel : forall m env s g, Rg env s g -> m < length (locals env) ->
 Proof.
   induction m as [|m IH]; intros env s g HR Hm.
   - exists g. split; [reflexivity|]. split; [|auto]. destruct env, HR. constructor; assumption.
-  - destruct env as [l cap cu], s as [st ro], g as [cs fs o tr]. destruct HR as [Hfr Hb Hc Ho Hbase Hun Hns Hpins].
+  - destruct env as [l cap cu], s as [st ro], g as [cs fs o tr]. destruct HR as [Hfr Hb Hc Ho Hbase Hun Hns Hpins Hnd].
     cbn [locals captured store rout cells frames out] in *.
     destruct l as [|sc l]; [cbn in Hm; lia|]. destruct l as [|sc' l]; [cbn in Hm; lia|].
     destruct fs as [|f fs]; [cbn in Hfr; contradiction|].
@@ -257,16 +261,17 @@ Proof.
       * intros y Hy. apply Hun. cbn [lookup_scopes] in Hy |- *. destruct (assoc y sc); [discriminate|exact Hy].
       * exact (proj2 Hns).
       * unfold pin_ok in *. cbn [cells frames locals] in *. eapply pins_pop_; exact Hpins.
+      * inversion Hnd; assumption.
     + cbn [locals length] in *. lia.
     + exists g'. split; [exact E|]. split; [exact HR'|]. auto.
 Qed.
 
 Lemma Rg_trc : forall env s g name a i, Rg env s g -> Rg env s (trc name a g i).
-Proof. intros env s g name a i [A B C D E F G H]. constructor; assumption. Qed.
+Proof. intros env s g name a i [A B C D E F G H I0]. constructor; assumption. Qed.
 
 Lemma print_rel : forall env s g l, Rg env s g -> Rg env (sprint s l) (emit_line g l).
 Proof.
-  intros env s g l [A B C D E F G H]. constructor; cbn [sprint emit_line store cells frames out rout]; try assumption.
+  intros env s g l [A B C D E F G H I0]. constructor; cbn [sprint emit_line store cells frames out rout]; try assumption.
   now rewrite D.
 Qed.
 
@@ -460,6 +465,37 @@ Section Sim.
       post pins sl bt ct (k + length (bitems c lr sl l)) (after_l B l) env (frames g) a g (exec_block fuel env l s).
 
   (* ---------------------------------------------------------------- expressions (ExprSim.sim_pure) *)
+  Lemma expr_run_gen : forall pins e d fuel k a g env s,
+    pure e = true -> lits_ok e = true ->
+    (forall x, In x (used_e e) -> uname x /\ lookup_scopes x (locals env) <> None) -> d <= S c ->
+    code_at code k (pcode d e) -> k + length (pcode d e) < length code ->
+    a_ip a = k -> a_ops a = [] -> Rg pins env s g ->
+    match eval fuel env e s with
+    | EVal v s' => s' = s /\ first_order v /\
+                   exists g', xrun name code a g (upd a (k + length (pcode d e)) [inj v]) g' /\ Rg pins env s g' /\
+                              tl (frames g') = tl (frames g)
+    | EFail f s' => s' = s /\ exists e0 g', xfail name code a g e0 g' /\ err_rel f e0 /\ out g' = rout s
+    | EFuel => True
+    | ENoVal _ => False
+    end.
+  Proof.
+    intros pins e d fuel k a g env s Hp Hl Hu Hd Hc Hend Hip Hops HR.
+    assert (Hv : forall x, In x (used_e e) -> var_ok env s x).
+    { intros x Hx. destruct (Hu x Hx) as [Hs Hin]. eapply Rg_var_ok; [exact HR|exact Hs|exact Hin]. }
+    assert (Hsm : small (d + length (pcode d e) + 3)) by (eapply small_le; [|exact Hsmall]; lia).
+    assert (Hfr : frames g <> []) by (destruct (Rfr_ne _ _ _ _ (Rg_fr _ _ _ HR)); assumption).
+    pose proof (sim_pure name code e Hp d fuel k a g env s Hl Hv Hsm Hc Hend Hip Hops Hfr (Rg_Renv env s a g HR)) as H.
+    destruct (eval fuel env e s) as [v s1|s1|f s1|]; cbn [sim_post] in H; [|contradiction| |exact Logic.I].
+    - destruct H as (-> & Hfo & g' & R). split; [reflexivity|]. split; [exact Hfo|]. exists g'. split.
+      + eapply run_ok_xrun. exact R.
+      + split; [eapply Rg_ext; [exact HR|exact (proj2 R)|]|exact (ext_tail _ _ _ _ _ (proj2 R))].
+        eapply xrun_nd; [eapply run_ok_xrun; exact R|exact (Rg_nd _ _ _ HR)].
+    - destruct H as (-> & e0 & g' & R & Hr & He). split; [reflexivity|]. exists e0, g'. split; [|split].
+      + now apply reaches_xreach_failed.
+      + exact Hr.
+      + rewrite (ext_out _ _ _ _ _ He). exact (Rg_out _ _ _ HR).
+  Qed.
+
   Lemma expr_run : forall pins e d fuel k a g env s B,
     ok_expr B e = true -> bound_in B env -> d <= S c ->
     code_at code k (pcode d e) -> k + length (pcode d e) < length code ->
@@ -475,19 +511,8 @@ Section Sim.
   Proof.
     intros pins e d fuel k a g env s B Hok Hb Hd Hc Hend Hip Hops HR.
     apply ok_expr_parts in Hok as (Hp & Hl & Hu).
-    assert (Hv : forall x, In x (used_e e) -> var_ok env s x).
-    { intros x Hx. destruct (Hu x Hx) as [Hs Hin]. eapply Rg_var_ok; [exact HR|exact Hs|apply Hb; exact Hin]. }
-    assert (Hsm : small (d + length (pcode d e) + 3)) by (eapply small_le; [|exact Hsmall]; lia).
-    assert (Hfr : frames g <> []) by (destruct (Rfr_ne _ _ _ _ (Rg_fr _ _ _ HR)); assumption).
-    pose proof (sim_pure name code e Hp d fuel k a g env s Hl Hv Hsm Hc Hend Hip Hops Hfr (Rg_Renv env s a g HR)) as H.
-    destruct (eval fuel env e s) as [v s1|s1|f s1|]; cbn [sim_post] in H; [|contradiction| |exact Logic.I].
-    - destruct H as (-> & Hfo & g' & R). split; [reflexivity|]. split; [exact Hfo|]. exists g'. split.
-      + eapply run_ok_xrun. exact R.
-      + split; [eapply Rg_ext; [exact HR|exact (proj2 R)]|exact (ext_tail _ _ _ _ _ (proj2 R))].
-    - destruct H as (-> & e0 & g' & R & Hr & He). split; [reflexivity|]. exists e0, g'. split; [|split].
-      + now apply reaches_xreach_failed.
-      + exact Hr.
-      + rewrite (ext_out _ _ _ _ _ He). exact (Rg_out _ _ _ HR).
+    apply expr_run_gen; try assumption.
+    intros x Hx. destruct (Hu x Hx) as [Hs Hin]. split; [exact Hs|]. apply Hb. exact Hin.
   Qed.
 
   (* the failing-expression case of every statement *)
@@ -1419,7 +1444,7 @@ Section Sim.
                    out := out g; trace := trace g |} in
       bind_local g y w = Some g' /\ Rg ((cn, w) :: pins) env s g'.
   Proof.
-    intros pins [l cap cu] [st ro] [cs fs o tr] y w [Hfr Hb Hc Ho Hbase Hun Hns Hpins] Hy.
+    intros pins [l cap cu] [st ro] [cs fs o tr] y w [Hfr Hb Hc Ho Hbase Hun Hns Hpins Hnd] Hy.
     cbn [locals captured store rout cells frames out trace] in *.
     destruct fs as [|f fs]; [destruct (Rfr_ne _ _ _ _ Hfr); congruence|].
     exists f, fs. split; [reflexivity|]. cbv zeta. split; [reflexivity|].
@@ -1436,6 +1461,7 @@ Section Sim.
         * intros c0 Hp. apply (pairs_top l f f' fs _ _ Hfind) in Hp.
           apply (pairs_cellrel st cs _ _ _ _ Hfr) in Hp. apply cellrel_valid in Hp. lia.
       + apply pins_mono_. eapply pins_top_; eassumption.
+    - apply (nd_top f fs); [exact Hnd|]. apply keys_nd_assoc_set. inversion Hnd; assumption.
   Qed.
 
   (* ---------------------------------------------------------------- the end of a from loop: the counter and the end
@@ -1443,10 +1469,10 @@ Section Sim.
   Lemma undeclare_rel : forall pins p env s g x sc l f fs vs,
     Rg (p :: pins) env s g -> locals env = sc :: l -> frames g = f :: fs -> uname x ->
     (forall y, uname y -> y <> x -> assoc y vs = assoc y (vars f)) -> assoc x vs = None ->
-    assoc x (assoc_del x sc) = None -> lookup_scopes x l = None ->
+    assoc x (assoc_del x sc) = None -> lookup_scopes x l = None -> keys_nd vs ->
     Rg pins (undeclare env x) s (with_frames g ({| lab := lab f; vars := vs |} :: fs)).
   Proof.
-    intros pins p [l0 cap cu] [st ro] [cs fs0 o tr] x sc l f fs vs [Hfr Hb Hc Ho Hbase Hun Hns Hpins] El Ef Hx Hvs Hxv Hxs Hxl.
+    intros pins p [l0 cap cu] [st ro] [cs fs0 o tr] x sc l f fs vs [Hfr Hb Hc Ho Hbase Hun Hns Hpins Hnd] El Ef Hx Hvs Hxv Hxs Hxl Hndv.
     cbn [locals captured store rout cells frames out trace] in *. subst l0 fs0.
     unfold undeclare. cbn [locals captured cur with_frames frames cells out].
     (* lookups of every user name other than x are unchanged on both sides; x is unbound on both sides *)
@@ -1479,6 +1505,7 @@ Section Sim.
     - unfold pin_ok in *. cbn [locals frames cells] in *. apply Forall_inv_tail in Hpins.
       eapply Forall_impl; [|exact Hpins]. intros [cy w0] [A1 A2]. split; [exact A1|].
       intros c0 Hp. exact (A2 c0 (Hpairs _ _ Hp)).
+    - apply (nd_top f fs); assumption.
   Qed.
 
   (* ---------------------------------------------------------------- simple loop bounds: one instruction, no register *)
@@ -1489,60 +1516,84 @@ Section Sim.
     - rewrite IH by exact H. apply Bool.orb_true_r.
   Qed.
 
-  Lemma simple_eval : forall B b pins env s g fuel, simple_expr B b = true -> bound_in B env -> Rg pins env s g ->
-    exists vb, eval (S fuel) env b s = EVal vb s /\ first_order vb.
+  Lemma ok_expr_weaken : forall B x e, ok_expr B e = true -> ok_expr (x :: B) e = true.
   Proof.
-    intros B b pins env s g fuel H Hb HG. destruct b; try discriminate; cbn [simple_expr] in H.
-    - exists (RInt z). split; [reflexivity|exact Logic.I].
-    - apply Bool.andb_true_iff in H as [H1 H2]. apply src_nameb_ok in H1. apply mem_str_In in H2.
-      destruct (Rg_var_ok _ _ _ _ HG H1 (proj2 (Hb x) H2)) as (_ & c0 & v & E1 & E2 & Hfo).
-      exists v. rewrite eval_EVar, E1, E2. split; [reflexivity|exact Hfo].
+    intros B x e H. unfold ok_expr in *. rewrite !Bool.andb_true_iff in *. destruct H as [[H1 H2] H3].
+    split; [split; assumption|]. rewrite forallb_forall in *. intros y Hy. specialize (H3 y Hy).
+    rewrite Bool.andb_true_iff in *. destruct H3 as [A B0]. split; [exact A|]. cbn [mem_str]. rewrite B0. apply Bool.orb_true_r.
   Qed.
 
-  Lemma simple_eval_declare : forall B b x env s va fuel vb, simple_expr B b = true -> mem_str x B = false ->
-    eval (S fuel) env b s = EVal vb s ->
-    eval (S fuel) (fst (declare env s x va)) b (snd (declare env s x va)) = EVal vb (snd (declare env s x va)).
+  (* ---------------------------------------------------------------- a call-free expression only looks at its variables *)
+  Definition res_to (r : eres) (s' : rstate) : eres :=
+    match r with EVal v _ => EVal v s' | ENoVal _ => ENoVal s' | EFail f _ => EFail f s' | EFuel => EFuel end.
+  Definition res_st (r : eres) (s : rstate) : Prop :=
+    match r with EVal _ s0 | ENoVal s0 | EFail _ s0 => s0 = s | EFuel => True end.
+  Definition agree (env : fenv) (s : rstate) (env' : fenv) (s' : rstate) (x : str) : Prop :=
+    exists c c' v, lookup_scopes x (locals env ++ captured env) = Some c /\ sget s c = Some v /\
+                   lookup_scopes x (locals env' ++ captured env') = Some c' /\ sget s' c' = Some v.
+
+  Lemma binop_sem_to : forall o a b s s', res_st (binop_sem o a b s) s /\ binop_sem o a b s' = res_to (binop_sem o a b s) s'.
   Proof.
-    intros B b x env s va fuel vb H HxB He. destruct b; try discriminate; cbn [simple_expr] in H.
-    - cbn in He |- *. inversion He; subst. reflexivity.
-    - apply Bool.andb_true_iff in H as [H1 H2].
-      assert (Hne : x0 <> x) by (intros ->; congruence).
-      rewrite eval_EVar in He |- *.
-      assert (El : lookup_scopes x0 (locals (fst (declare env s x va)) ++ captured (fst (declare env s x va)))
-                   = lookup_scopes x0 (locals env ++ captured env)).
-      { unfold declare, alloc. destruct (locals env) as [|sc r]; cbn [fst locals captured app lookup_scopes assoc].
-        - rewrite (str_eqb_neq x x0) by congruence. reflexivity.
-        - rewrite assoc_set_other by exact Hne. reflexivity. }
-      rewrite El. destruct (lookup_scopes x0 (locals env ++ captured env)) as [c0|]; [|discriminate].
-      assert (Eg : forall v, sget s c0 = Some v -> sget (snd (declare env s x va)) c0 = Some v).
-      { intros v Hv. unfold declare, alloc, sget in *. destruct (locals env); cbn [snd store];
-          (rewrite nth_error_app1; [exact Hv|apply nth_error_Some; congruence]). }
-      destruct (sget s c0) as [v|]; [|discriminate]. rewrite (Eg v eq_refl). inversion He; subst. reflexivity.
+    intros o a b s s'. destruct o, a, b; cbn [binop_sem req rshow]; unfold arith_res;
+      repeat match goal with |- context [if ?c then _ else _] => destruct c end;
+      repeat match goal with |- context [match ?c with _ => _ end] => destruct c end; split; reflexivity.
   Qed.
 
-  Lemma simple_run : forall B b pins env s g a kq vb fuel, simple_expr B b = true -> Rg pins env s g ->
-    eval (S fuel) env b s = EVal vb s -> code_at code kq (pcode c b) -> a_ip a = kq -> a_ops a = [] ->
-    exists i, pcode c b = [i] /\ xrun name code a g (upd a (S kq) [inj vb]) (trc name a g i).
+  Definition congr_spec (e : expr) : Prop :=
+    forall fuel env s env' s', (forall x, In x (used_e e) -> agree env s env' s' x) ->
+      res_st (eval fuel env e s) s /\ eval fuel env' e s' = res_to (eval fuel env e s) s'.
+
+  Ltac congr_sub IH Hv fuel env s env' s' r :=
+    let H1 := fresh "H1" in let H2 := fresh "H2" in
+    destruct (IH fuel env s env' s' Hv) as [H1 H2]; rewrite H2; clear H2;
+    destruct (eval fuel env r s) as [? ?|?|? ?|]; cbn [res_st res_to] in *; try subst;
+    try (split; reflexivity).
+
+  Theorem eval_pure_congr : forall e, pure e = true -> congr_spec e.
   Proof.
-    intros B b pins env s g a kq vb fuel H HG He Hc Hip Hops. subst kq. destruct b; try discriminate; cbn [simple_expr] in H.
-    - cbn in He. inversion He; subst vb. cbn [pcode] in *. apply code_at_cons in Hc as [Hi _].
-      eexists. split; [reflexivity|].
-      eapply (xstep_next name code a g _ _ (a_ip a) (set_ops a [VInt z])); [reflexivity|exact Hi|apply dec_make_int; exact H|].
-      rewrite exec_make_int, Hops. reflexivity.
-    - apply Bool.andb_true_iff in H as [H1 H2]. apply src_nameb_ok in H1.
-      rewrite eval_EVar in He.
-      destruct (lookup_scopes x (locals env ++ captured env)) as [c0|] eqn:E1; [|discriminate].
-      destruct (sget s c0) as [v|] eqn:E2; [|discriminate]. inversion He; subst v.
-      cbn [pcode] in *. apply code_at_cons in Hc as [Hi _].
-      assert (Hfo : first_order vb).
-      { rewrite (Rg_cap _ _ _ HG), app_nil_r in E1.
-        destruct (Rg_var_ok _ _ _ _ HG H1 ltac:(congruence)) as (_ & c1 & v1 & F1 & F2 & F3).
-        rewrite (Rg_cap _ _ _ HG), app_nil_r in F1. congruence. }
-      set (i := mkI OP_LOAD [x]).
-      destruct (Rg_Renv _ _ a (trc name a g i) (Rg_trc _ _ _ _ _ _ HG) x c0 vb (uname_src _ H1) E1 E2 Hfo) as (c' & L1 & L2).
-      exists i. split; [reflexivity|].
-      eapply (xstep_next name code a g i _ (a_ip a) (set_ops a [inj vb])); [reflexivity|exact Hi|apply dec_load|].
-      rewrite (exec_load x a _ c' (inj vb) L1 L2), Hops. reflexivity.
+    induction e; intros Hp; cbn [pure] in Hp; try discriminate;
+      try (apply Bool.andb_true_iff in Hp as [Hp1 Hp2]);
+      intros fuel env sA env' sB Hv; (destruct fuel as [|fuel]; [split; reflexivity|]).
+    - split; reflexivity.
+    - split; reflexivity.
+    - split; reflexivity.
+    - split; reflexivity.
+    - rewrite !eval_EVar. destruct (Hv x (or_introl eq_refl)) as (c0 & c0' & v & E1 & E2 & E3 & E4).
+      rewrite E1, E2, E3, E4. split; reflexivity.
+    - rewrite !eval_EBin. rewrite used_e_bin in Hv.
+      assert (Hva : forall x, In x (used_e e1) -> agree env sA env' sB x) by (intros x Hx; apply Hv, in_or_app; now left).
+      assert (Hvb : forall x, In x (used_e e2) -> agree env sA env' sB x) by (intros x Hx; apply Hv, in_or_app; now right).
+      congr_sub (IHe1 Hp1) Hva fuel env sA env' sB e1.
+      congr_sub (IHe2 Hp2) Hvb fuel env sA env' sB e2.
+      apply binop_sem_to.
+    - rewrite !eval_EAnd. rewrite used_e_and in Hv.
+      assert (Hva : forall x, In x (used_e e1) -> agree env sA env' sB x) by (intros x Hx; apply Hv, in_or_app; now left).
+      assert (Hvb : forall x, In x (used_e e2) -> agree env sA env' sB x) by (intros x Hx; apply Hv, in_or_app; now right).
+      congr_sub (IHe1 Hp1) Hva fuel env sA env' sB e1.
+      destruct v as [?|[|]|?| |? ? ?]; try (split; reflexivity).
+      congr_sub (IHe2 Hp2) Hvb fuel env sA env' sB e2.
+      destruct v; split; reflexivity.
+    - rewrite !eval_EOr. rewrite used_e_or in Hv.
+      assert (Hva : forall x, In x (used_e e1) -> agree env sA env' sB x) by (intros x Hx; apply Hv, in_or_app; now left).
+      assert (Hvb : forall x, In x (used_e e2) -> agree env sA env' sB x) by (intros x Hx; apply Hv, in_or_app; now right).
+      congr_sub (IHe1 Hp1) Hva fuel env sA env' sB e1.
+      destruct v as [?|[|]|?| |? ? ?]; try (split; reflexivity).
+      congr_sub (IHe2 Hp2) Hvb fuel env sA env' sB e2.
+      destruct v; split; reflexivity.
+    - rewrite !eval_ENot. rewrite used_e_not in Hv.
+      congr_sub (IHe Hp) Hv fuel env sA env' sB e.
+      destruct v; split; reflexivity.
+    - rewrite !eval_ENeg. rewrite used_e_neg in Hv.
+      congr_sub (IHe Hp) Hv fuel env sA env' sB e.
+      destruct v; try (split; reflexivity). unfold arith_res. destruct (i32_ok (- z)); split; reflexivity.
+    - rewrite !eval_ENilOr. rewrite used_e_nilor in Hv.
+      assert (Hva : forall x, In x (used_e e1) -> agree env sA env' sB x) by (intros x Hx; apply Hv, in_or_app; now left).
+      assert (Hvb : forall x, In x (used_e e2) -> agree env sA env' sB x) by (intros x Hx; apply Hv, in_or_app; now right).
+      congr_sub (IHe1 Hp1) Hva fuel env sA env' sB e1.
+      destruct v; try (split; reflexivity). exact (IHe2 Hp2 fuel env sA env' sB Hvb).
+    - rewrite !eval_EGet. rewrite used_e_get in Hv.
+      congr_sub (IHe Hp) Hv fuel env sA env' sB e.
+      destruct v; split; reflexivity.
   Qed.
 
   (* ---------------------------------------------------------------- the loop head of a from loop: load_fast counter,
@@ -1582,36 +1633,29 @@ Section Sim.
     - intros pins env s H. apply Rg_trc. apply Rg_trc. apply Rg_trc. exact H.
   Qed.
 
-  (* the step of a from loop: make_int d; bin_op_assign += counter (leaves the new value on the operand stack) *)
-  Lemma from_step_run : forall ks x istep d a2 g2 cxv i',
-    nth_error code ks = Some istep -> decode istep = DOk (DMakeInt d) ->
-    nth_error code (S ks) = Some (mkI OP_BIN_OP_ASSIGN [[43%N; 61%N]; x]) ->
-    a_ip a2 = ks -> a_ops a2 = [] -> find_in_function x (frames g2) = Some cxv -> cell_get g2 cxv = Some (VInt i') ->
+  (* the step of a from loop, after the step value d has been computed: bin_op_assign += counter
+     (leaves the new value on the operand stack) *)
+  Lemma from_add_run : forall p x d a2 g2 cxv i',
+    nth_error code p = Some (mkI OP_BIN_OP_ASSIGN [[43%N; 61%N]; x]) ->
+    a_ip a2 = p -> a_ops a2 = [VInt d] -> find_in_function x (frames g2) = Some cxv -> cell_get g2 cxv = Some (VInt i') ->
     if i32_ok (i' + d)%Z then
-      exists g3 g3', xrun name code a2 g2 (upd a2 (S (S ks)) [VInt (i' + d)%Z]) g3 /\
-                     g3 = cell_set g3' cxv (VInt (i' + d)%Z) /\ frames g3' = frames g2 /\ cells g3' = cells g2 /\
-                     (forall pins env s, Rg pins env s g2 -> Rg pins env s g3')
+      exists g3', xrun name code a2 g2 (upd a2 (S p) [VInt (i' + d)%Z]) (cell_set g3' cxv (VInt (i' + d)%Z)) /\
+                  frames g3' = frames g2 /\ (forall pins env s, Rg pins env s g2 -> Rg pins env s g3')
     else exists g3, xfail name code a2 g2 (E_overflow OP_BIN_OP) g3 /\ out g3 = out g2.
   Proof.
-    intros ks x istep d a2 g2 cxv i' H1 Hd H2 Hip Hops Fx Cx. subst ks. set (ks := a_ip a2) in *.
+    intros p x d a2 g2 cxv i' H2 Hip Hops Fx Cx. subst p.
     set (i2 := mkI OP_BIN_OP_ASSIGN [[43%N; 61%N]; x]) in *.
-    set (g2a := trc name a2 g2 istep).
-    set (a3 := set_ip (set_ops a2 [VInt d]) (S ks)).
-    set (g2b := trc name a3 g2a i2).
-    assert (R1 : xrun name code a2 g2 a3 g2a).
-    { eapply (xstep_next name code a2 g2 istep _ ks (set_ops a2 [VInt d])); [reflexivity|exact H1|exact Hd|].
-      rewrite exec_make_int, Hops. reflexivity. }
-    assert (Hlv : lookup_var a3 g2b x = Some cxv) by (unfold lookup_var; change (frames g2b) with (frames g2); now rewrite Fx).
-    pose proof (exec_bin_op_assign [43%N; 61%N] x a3 g2b cxv (VInt d) (VInt i') Hlv eq_refl Cx) as Hx.
+    set (g2b := trc name a2 g2 i2).
+    assert (Hlv : lookup_var a2 g2b x = Some cxv) by (unfold lookup_var; change (frames g2b) with (frames g2); now rewrite Fx).
+    pose proof (exec_bin_op_assign [43%N; 61%N] x a2 g2b cxv (VInt d) (VInt i') Hlv Hops Cx) as Hx.
     change (op_base [43%N; 61%N]) with op_plus in Hx.
     change (bin_op_sem op_plus (VInt i') (VInt d)) with (arith OP_BIN_OP (i' + d)%Z) in Hx. unfold arith in Hx.
     destruct (i32_ok (i' + d)%Z).
-    - exists (cell_set g2b cxv (VInt (i' + d)%Z)), g2b. split; [|split; [reflexivity|split; [reflexivity|split; [reflexivity|]]]].
-      + eapply xrun_trans; [exact R1|].
-        eapply (xstep_next name code a3 g2a i2 _ (S ks) (set_ops a3 [VInt (i' + d)%Z])); [reflexivity|exact H2|apply dec_bin_op_assign|exact Hx].
-      + intros pins env s H. apply Rg_trc. apply Rg_trc. exact H.
+    - exists g2b. split; [|split; [reflexivity|]].
+      + eapply (xstep_next name code a2 g2 i2 _ (a_ip a2) (set_ops a2 [VInt (i' + d)%Z])); [reflexivity|exact H2|apply dec_bin_op_assign|exact Hx].
+      + intros pins env s H. apply Rg_trc. exact H.
     - exists g2b. split; [|reflexivity].
-      eapply xrun_fail; [exact R1|]. eapply xstep_fail; [reflexivity|exact H2|apply dec_bin_op_assign|exact Hx].
+      eapply xstep_fail; [reflexivity|exact H2|apply dec_bin_op_assign|exact Hx].
   Qed.
 
   (* the back edge with an arbitrary operand stack (a from loop leaves the result of `+=` there) *)
@@ -1632,21 +1676,23 @@ Section Sim.
     - rewrite Hf3. cbn [trc add_trace frames]. rewrite (skipn_S_tl _ 0). reflexivity.
   Qed.
 
-  Definition step_val (st : option expr) : Z := match st with Some (EInt z) => z | _ => 1%Z end.
+  Definition step_expr (st : option expr) : expr := match st with Some e => e | None => EInt 1 end.
+  Lemma step_code_expr : forall st, step_code c st = map CI (pcode c (step_expr st)).
+  Proof. intros [e|]; reflexivity. Qed.
+  Lemma step_ok_expr : forall B st, step_ok B st = true -> ok_expr B (step_expr st) = true.
+  Proof. intros B [e|] H; [exact H|reflexivity]. Qed.
 
-  Lemma dec_step_code : forall st, step_ok st = true ->
-    exists i, step_code c st = [CI i] /\ decode i = DOk (DMakeInt (step_val st)).
+  (* agreement of the variables of an expression between two related views of the scopes *)
+  Lemma agree_of : forall pins env s g env' s' e B, Rg pins env s g -> ok_expr B e = true -> bound_in B env ->
+    (forall y c0, In y B -> lookup_scopes y (locals env) = Some c0 -> lookup_scopes y (locals env') = Some c0) ->
+    (forall c0 v, sget s c0 = Some v -> sget s' c0 = Some v) -> captured env' = [] ->
+    forall y, In y (used_e e) -> agree env s env' s' y.
   Proof.
-    intros [e|] H; cbn [step_ok] in H.
-    - destruct e; try discriminate. eexists. split; [reflexivity|]. apply dec_make_int. exact H.
-    - eexists. split; reflexivity.
-  Qed.
-
-  Lemma simple_expr_ok : forall B e, simple_expr B e = true -> ok_expr B e = true.
-  Proof.
-    intros B e H. unfold ok_expr. destruct e; try discriminate; cbn [simple_expr pure lits_ok used_e forallb] in *.
-    - now rewrite H.
-    - now rewrite H.
+    intros pins env s g env' s' e B HG Hok Hb Hl Hs Hc' y Hy.
+    apply ok_expr_parts in Hok as (_ & _ & Hu). destruct (Hu y Hy) as [Hun Hin].
+    destruct (Rg_var_ok _ _ _ _ HG Hun (proj2 (Hb y) Hin)) as (_ & c0 & v & E1 & E2 & _).
+    exists c0, c0, v. split; [exact E1|]. split; [exact E2|].
+    rewrite (Rg_cap _ _ _ HG), app_nil_r in E1. rewrite Hc', app_nil_r. split; [now apply Hl|now apply Hs].
   Qed.
 
   Lemma from_correct : forall a0 b incl step x body, block_spec body ->
@@ -1654,16 +1700,17 @@ Section Sim.
   Proof.
     intros a0 b incl step x body Hbody pins lr il sl bt ct fuel k a g env s B Hok Hb Hit Hend Hlc Hip HR.
     destruct fuel as [|fuel]; [exact Logic.I|].
-    rewrite ok_SFrom in Hok. rewrite !Bool.andb_true_iff in Hok. destruct Hok as [[[[[Hx HxB] Hoa] Hsb] Hst] Hokb].
-    apply src_nameb_ok in Hx. apply Bool.negb_true_iff in HxB.
-    destruct (dec_step_code step Hst) as (istep & Estep & Hdstep).
-    rewrite sitems_SFrom in *. cbv zeta in *. rewrite Estep in *.
+    rewrite ok_SFrom in Hok. rewrite !Bool.andb_true_iff in Hok. destruct Hok as [[[[[Hx HxB] Hoa] Hob] Hst] Hokb].
+    apply src_nameb_ok in Hx. apply Bool.negb_true_iff in HxB. apply step_ok_expr in Hst.
+    rewrite sitems_SFrom in *. cbv zeta in *. rewrite step_code_expr in *.
+    set (se := step_expr step) in *.
     set (cb0 := bitems c (S lr) (Some 1) body) in *.
     set (endr := lregn (S lr)) in *.
     set (la := length (pcode c a0)) in *. set (lb := length (pcode c b)) in *. set (lbd := length cb0) in *.
+    set (ls := length (pcode c se)) in *.
     match type of Hend with k + length ?L < _ =>
-      assert (Hlen : length L = la + 1 + lb + 1 + 3 + 1 + (lbd + 3) + 1)
-        by (rewrite !app_length, resolve_length, !app_length, !map_length; cbn [length]; fold la lb lbd; lia)
+      assert (Hlen : length L = la + 1 + lb + 1 + 3 + 1 + (lbd + ls + 2) + 1)
+        by (rewrite !app_length, resolve_length, !app_length, !map_length; cbn [length]; fold la lb lbd ls; lia)
     end.
     rewrite Hlen in *. clear Hlen.
     apply items_at_app in Hit as [Hca Hit]. apply items_at_CI in Hca. rewrite map_length in Hit. fold la in Hit.
@@ -1675,288 +1722,83 @@ Section Sim.
     apply items_at_app in Hit as [Hres Hdel]. rewrite resolve_length in Hdel.
     apply items_at_resolve_gen in Hres. apply items_at_app in Hres as [Hfull0 Hj].
     apply items_at_app in Hfull0 as [Hib Hstp]. fold lbd in Hstp.
-    apply items_at_cons in Hstp as [Hs1 Hstp]. apply items_at_cons in Hstp as [Hs2 _].
+    apply items_at_app in Hstp as [Hcs Hs2]. apply items_at_CI in Hcs. rewrite map_length in Hs2. fold ls in Hs2.
+    apply items_at_cons in Hs2 as [Hs2 _].
     apply items_at_cons in Hj as [Hj _]. apply items_at_cons in Hdel as [Hdel _].
-    cbn [item_instr I] in Hi1, Hi3, Hc1, Hc2, Hc3, Hw, Hs1, Hs2, Hj, Hdel.
-    repeat rewrite app_length in Hw. repeat rewrite app_length in Hib. repeat rewrite app_length in Hs1.
+    cbn [item_instr I] in Hi1, Hi3, Hc1, Hc2, Hc3, Hw, Hs2, Hj, Hdel.
+    repeat rewrite app_length in Hw. repeat rewrite app_length in Hib. repeat rewrite app_length in Hcs.
     repeat rewrite app_length in Hs2. repeat rewrite app_length in Hj. repeat rewrite app_length in Hdel.
-    cbn [length] in Hw, Hib, Hs1, Hs2, Hj, Hdel.
-    fold lbd in Hw, Hib, Hs1, Hs2, Hj, Hdel.
+    repeat rewrite map_length in Hw. repeat rewrite map_length in Hib. repeat rewrite map_length in Hj. repeat rewrite map_length in Hdel.
+    cbn [length] in Hw, Hib, Hcs, Hs2, Hj, Hdel.
+    fold lbd ls in Hw, Hib, Hcs, Hs2, Hj, Hdel.
     set (k1 := k + la) in *. set (k3 := S k1 + lb) in *. set (kc := S k3) in *.
-    set (kw := S (S (S kc))). set (kb := S kw). set (ks := kb + lbd). set (kj := S (S ks)). set (kd := S kj). set (fin := S kd).
-    assert (Hw' : nth_error code kw = Some (mkI OP_WHILE_LOOP [sN (lbd + 4)])).
-    { replace kw with (S (S (S kc))) by (unfold kw; lia). replace (lbd + 4) with (lbd + 2 + 1 + 1) by lia. exact Hw. }
+    set (kw := S (S (S kc))). set (kb := S kw). set (ks := kb + lbd). set (kp := ks + ls). set (kj := S kp). set (kd := S kj). set (fin := S kd).
+    assert (Hw' : nth_error code kw = Some (mkI OP_WHILE_LOOP [sN (lbd + ls + 3)])).
+    { replace (lbd + ls + 3) with (lbd + (ls + 1) + 1 + 1) by lia. exact Hw. }
     assert (Hib' : items_at kd ks kb cb0).
-    { replace kd with (S (S (S (S kc))) + (lbd + 2 + 1)) by (unfold kd, kj, ks, kb, kw; lia).
-      replace ks with (S (S (S (S kc))) + (lbd + 2 + 1) - 2 - 1) by (unfold ks, kb, kw; lia).
-      replace kb with (S (S (S (S kc)))) by (unfold kb, kw; lia). exact Hib. }
-    assert (Hs1' : nth_error code ks = Some istep).
-    { replace ks with (S (S (S (S kc))) + lbd) by (unfold ks, kb, kw; lia). exact Hs1. }
-    assert (Hs2' : nth_error code (S ks) = Some (mkI OP_BIN_OP_ASSIGN [[43%N; 61%N]; x])).
-    { replace (S ks) with (S (S (S (S (S kc))) + lbd)) by (unfold ks, kb, kw; lia). exact Hs2. }
-    assert (Hj' : nth_error code kj = Some (mkI OP_JMP_POP [neg_off (lbd + 6)])).
-    { replace kj with (S (S (S (S kc))) + (lbd + 2)) by (unfold kj, ks, kb, kw; lia).
-      replace (lbd + 6) with (1 + 3 + (lbd + 2)) by lia. exact Hj. }
+    { replace kd with (S (S (S (S kc))) + (lbd + (ls + 1) + 1)) by (unfold kd, kj, kp, ks, kb, kw; lia).
+      replace ks with (S (S (S (S kc))) + (lbd + (ls + 1) + 1) - (ls + 1) - 1) by (unfold ks, kb, kw; lia).
+      exact Hib. }
+    assert (Hcs' : code_at code ks (pcode c se)) by exact Hcs.
+    assert (Hs2' : nth_error code kp = Some (mkI OP_BIN_OP_ASSIGN [[43%N; 61%N]; x])) by exact Hs2.
+    assert (Hj' : nth_error code kj = Some (mkI OP_JMP_POP [neg_off (lbd + ls + 5)])).
+    { replace kj with (S (S (S (S kc))) + (lbd + (ls + 1))) by (unfold kj, kp, ks, kb, kw; lia).
+      replace (lbd + ls + 5) with (1 + 3 + (lbd + (ls + 1))) by lia. exact Hj. }
     assert (Hdel' : nth_error code kd = Some (mkI OP_DELETE_NAME_SCOPED [x; endr])).
-    { replace kd with (S (S (S (S kc))) + (lbd + 2 + 1)) by (unfold kd, kj, ks, kb, kw; lia). exact Hdel. }
-    clear Hw Hib Hs1 Hs2 Hj Hdel.
-    assert (Hfin : k + (la + 1 + lb + 1 + 3 + 1 + (lbd + 3) + 1) = fin) by (unfold fin, kd, kj, ks, kb, kw, kc, k3, k1; lia).
+    { replace kd with (S (S (S (S kc))) + (lbd + (ls + 1) + 1)) by (unfold kd, kj, kp, ks, kb, kw; lia). exact Hdel. }
+    clear Hw Hib Hcs Hs2 Hj Hdel.
+    assert (Hfin : k + (la + 1 + lb + 1 + 3 + 1 + (lbd + ls + 2) + 1) = fin) by (unfold fin, kd, kj, kp, ks, kb, kw, kc, k3, k1; lia).
     rewrite Hfin in *.
     destruct HR as (HG & Hops & Hss).
     rewrite exec_SFrom. cbn [after].
     destruct fuel as [|fuel]; [exact Logic.I|].
     (* the lower bound *)
-    pose proof (expr_run pins a0 c (S fuel) k a g env s B Hoa Hb ltac:(lia) Hca ltac:(fold la; lia) Hip Hops HG) as He.
+    pose proof (expr_run pins a0 c (S fuel) k a g env s B Hoa Hb ltac:(lia) Hca ltac:(fold la; unfold fin, kd, kj, kp, ks, kb, kw, kc, k3, k1 in *; lia) Hip Hops HG) as He.
     fold la in He. fold k1 in He.
     destruct (eval (S fuel) env a0 s) as [va s1|s1|f s1|]; [|contradiction| |exact Logic.I].
     2:{ destruct He as (-> & e0 & g' & Hf & Hr & Ho). eapply post_expr_fail; eassumption. }
     destruct He as (-> & Hfoa & g1 & R1 & HG1 & Hf1).
-    (* the upper bound: the reference semantics evaluates it before the counter exists *)
-    destruct (simple_eval B b pins env s g1 fuel Hsb Hb HG1) as (vb & Evb & Hfob). rewrite Evb.
-    destruct va as [i0|?|?| |? ? ?]; try exact Logic.I.
-    destruct vb as [hi|?|?| |? ? ?]; try exact Logic.I.
-    cbv zeta.
-    destruct (declare env s x (RInt i0)) as [env1 s1] eqn:Edec.
+    (* the counter is a fresh name *)
     assert (Hxn : lookup_scopes x (locals env) = None).
     { destruct (lookup_scopes x (locals env)) eqn:E; [|reflexivity].
       assert (Hin : In x B) by (apply Hb; congruence). apply In_mem_str in Hin. congruence. }
-    assert (Eas : assign env s x (RInt i0) = (env1, s1)) by (unfold assign; rewrite Hxn; exact Edec).
+    destruct (declare env s x va) as [env1 s1] eqn:Edec.
+    assert (Eas : assign env s x va = (env1, s1)) by (unfold assign; rewrite Hxn; exact Edec).
     destruct (locals env) as [|sc0 l'] eqn:El; [exact (False_ind _ (Rg_ne _ _ _ HG El))|].
     set (cx := N.of_nat (length (store s))).
     assert (El1 : locals env1 = assoc_set x cx sc0 :: l').
     { unfold declare, alloc in Edec. rewrite El in Edec. inversion Edec. reflexivity. }
-    (* store_fast x *)
-    set (a1 := upd a k1 [inj (RInt i0)]) in *.
+    assert (Es1 : forall c0 v, sget s c0 = Some v -> sget s1 c0 = Some v).
+    { intros c0 v Hv. unfold declare, alloc in Edec. rewrite El in Edec. inversion Edec. unfold sget in *. cbn [store].
+      rewrite nth_error_app1; [exact Hv|apply nth_error_Some; congruence]. }
+    assert (Ec1 : captured env1 = []).
+    { unfold declare, alloc in Edec. rewrite El in Edec. inversion Edec. cbn [captured]. exact (Rg_cap _ _ _ HG). }
+    assert (Ero : rout s1 = rout s).
+    { unfold declare, alloc in Edec. rewrite El in Edec. inversion Edec. reflexivity. }
+    (* store_fast x (the VM declares the counter BEFORE it evaluates the upper bound) *)
+    set (a1 := upd a k1 [inj va]) in *.
     set (i_sx := mkI OP_STORE_FAST [x]) in *.
     set (g1t := trc name a1 g1 i_sx).
     assert (HG1t : Rg pins env s g1t) by (apply Rg_trc; exact HG1).
-    destruct (store_rel env s g1t x (RInt i0) env1 s1 HG1t Hx Logic.I Eas) as (g2 & Hst2 & HG2S & Hd2 & Hbx2 & HtlS).
+    destruct (store_rel env s g1t x va env1 s1 HG1t Hx Hfoa Eas) as (g2 & Hst2 & HG2S & Hd2 & Hbx2 & HtlS).
     assert (Hfn : find_in_function x (frames g1t) = None).
     { pose proof (Rfr_look _ _ _ _ (Rg_fr _ _ _ HG1t) x Hx) as H. rewrite El, Hxn in H.
       destruct (find_in_function x (frames g1t)); [contradiction|reflexivity]. }
     unfold store_var in Hst2. rewrite Hfn in Hst2.
-    destruct (frames g1t) as [|f0 R] eqn:Ef0; [exfalso; exact (proj2 (Rfr_ne _ _ _ _ (Rg_fr _ _ _ HG1t)) Ef0)|].
-    assert (Hax0 : assoc x (vars f0) = None).
-    { cbn [find_in_function] in Hfn. destruct (assoc x (vars f0)); [discriminate|reflexivity]. }
-    set (cx' := N.of_nat (length (cells g1t))).
-    set (F1 := {| lab := lab f0; vars := assoc_set x cx' (vars f0) |}).
-    assert (Ef2 : frames g2 = F1 :: R).
-    { unfold bind_local in Hst2. rewrite Ef0 in Hst2. cbn [cell_new] in Hst2. inversion Hst2. reflexivity. }
     set (a2 := upd a (S k1) []).
     assert (R2 : xrun name code a g a2 g2).
     { eapply xrun_trans; [exact R1|].
       eapply (xstep_next name code a1 g1 i_sx _ k1 (set_ops a1 [])); [reflexivity|exact Hi1|apply dec_store_fast|].
-      apply (exec_store_fast x a1 g1t (inj (RInt i0)) g2); [reflexivity|exact Hst2]. }
-    (* the upper bound, evaluated by the VM after the counter exists: same value *)
-    pose proof (simple_eval_declare B b x env s (RInt i0) fuel (RInt hi) Hsb HxB Evb) as Eb1.
-    rewrite Edec in Eb1. cbn [fst snd] in Eb1.
-    destruct (simple_run B b pins env1 s1 g2 a2 (S k1) (RInt hi) fuel Hsb HG2S Eb1 Hcb eq_refl eq_refl) as (ib & Eib & R3).
-    assert (Hlb : lb = 1) by (unfold lb; rewrite Eib; reflexivity).
-    set (a3 := upd a2 (S (S k1)) [inj (RInt hi)]) in *.
-    set (g3 := trc name a2 g2 ib) in *.
-    (* store_fast L#n *)
-    set (i_se := mkI OP_STORE_FAST [endr]) in *.
-    set (g3t := trc name a3 g3 i_se).
-    assert (HG3t : Rg pins env1 s1 g3t) by (apply Rg_trc; apply Rg_trc; exact HG2S).
-    destruct (bind_reg_rel pins env1 s1 g3t endr (inj (RInt hi)) HG3t ltac:(intros Hu; exact (uname_not_lregn _ (S lr) Hu eq_refl)))
-      as (f3 & fs3 & Ef3 & Hb3).
-    cbv zeta in Hb3. destruct Hb3 as [Hbind3 HG4].
-    assert (E3 : f3 = F1 /\ fs3 = R).
-    { change (frames g3t) with (frames g2) in Ef3. rewrite Ef2 in Ef3. inversion Ef3. auto. }
-    destruct E3 as [-> ->].
-    set (ce := N.of_nat (length (cells g3t))) in *.
-    set (F2 := {| lab := lab F1; vars := assoc_set endr ce (vars F1) |}) in *.
-    match type of HG4 with Rg _ _ _ ?G => set (g4 := G) in * end.
-    set (a4 := upd a (S (S (S k1))) []).
-    assert (Hip4 : a_ip a4 = kc) by (cbn; unfold kc, k3; lia).
-    assert (R4 : xrun name code a g a4 g4).
-    { eapply xrun_trans; [exact R2|]. eapply xrun_trans; [exact R3|].
-      eapply (xstep_next name code a3 g3 i_se _ (S (S k1)) (set_ops a3 [])); [reflexivity| |apply dec_store_fast|].
-      - replace (S (S k1)) with k3 by (unfold k3; lia). exact Hi3.
-      - apply (exec_store_fast endr a3 g3t (inj (RInt hi)) g4); [reflexivity|exact Hbind3]. }
-    (* ---- static facts about the loop-head frames F2 :: R and scopes lL *)
-    set (pins' := (ce, VInt hi) :: pins).
-    set (lL := assoc_set x cx sc0 :: l').
-    assert (Hxe : x <> endr) by (apply uname_not_lregn; exact Hx).
-    assert (HaxF2 : assoc x (vars F2) = Some cx').
-    { unfold F2, F1. cbn [vars]. rewrite assoc_set_other by exact Hxe. apply assoc_set_same. }
-    assert (HaeF2 : assoc endr (vars F2) = Some ce) by (unfold F2; cbn [vars]; apply assoc_set_same).
-    set (vs := assoc_del endr (assoc_del x (vars F2))).
-    assert (Evs : vs = assoc_del endr (assoc_set endr ce (vars f0))).
-    { unfold vs, F2, F1. cbn [vars]. rewrite assoc_del_set_comm by exact Hxe. rewrite (assoc_del_set_absent _ x cx' (vars f0)) by exact Hax0. reflexivity. }
-    assert (Hvs1 : forall y, uname y -> y <> x -> assoc y vs = assoc y (vars F2)).
-    { intros y Hy Hne. assert (y <> endr) by (apply uname_not_lregn; exact Hy).
-      rewrite Evs, assoc_del_other, assoc_set_other by assumption.
-      unfold F2, F1. cbn [vars]. rewrite !assoc_set_other by assumption. reflexivity. }
-    assert (Hvs2 : assoc x vs = None).
-    { rewrite Evs, assoc_del_other, assoc_set_other by assumption. exact Hax0. }
-    assert (Hxs0 : assoc x sc0 = None /\ lookup_scopes x l' = None).
-    { cbn [lookup_scopes] in Hxn. destruct (assoc x sc0); [discriminate|]. auto. }
-    destruct Hxs0 as [Hxs0 Hxl'].
-    assert (Hdel0 : assoc_del x (assoc_set x cx sc0) = sc0) by (now apply assoc_del_set_absent).
-    assert (Ef4 : frames g4 = F2 :: R) by reflexivity.
-    assert (HR_tl : R = tl (frames g)).
-    { rewrite <- Hf1. change (frames g1) with (frames g1t). now rewrite Ef0. }
-    (* ---- leaving the loop: delete the counter and the end register *)
-    assert (Hexit : forall a5 g5 env5 s5, locals env5 = lL -> Rg pins' env5 s5 g5 -> frames g5 = F2 :: R ->
-              a_ip a5 = kd -> a_ops a5 = [] -> length lL <= S (a_ss a5) ->
-              exists a6 g6, xrun name code a5 g5 a6 g6 /\ a_ip a6 = fin /\ Rst pins (undeclare env5 x) s5 a6 g6 /\
-                            act_same a5 a6 /\ tl (frames g6) = R /\ locals (undeclare env5 x) = sc0 :: l').
-    { intros a5 g5 env5 s5 El5 HG5 Ef5 Hip5 Hops5 Hss5.
-      set (i_d := mkI OP_DELETE_NAME_SCOPED [x; endr]) in *.
-      set (g5t := trc name a5 g5 i_d).
-      assert (Eu : locals (undeclare env5 x) = sc0 :: l') by (unfold undeclare; rewrite El5; cbn [locals lL]; now rewrite Hdel0).
-      exists (set_ip a5 (S (a_ip a5))), (with_frames g5t ({| lab := lab F2; vars := vs |} :: R)).
-      split; [|split; [|split; [|split; [|split]]]].
-      - eapply (xstep_next name code a5 g5 i_d _ kd a5); [exact Hip5|exact Hdel'|apply dec_delete2|].
-        exact (exec_delete2 x endr a5 g5t F2 R cx' ce Ef5 Hxe HaxF2 HaeF2).
-      - cbn [set_ip a_ip]. rewrite Hip5. reflexivity.
-      - split; [|split; [exact Hops5|]].
-        + eapply (undeclare_rel pins (ce, VInt hi) env5 s5 g5t x (assoc_set x cx sc0) l' F2 R vs);
-            [apply Rg_trc; exact HG5|exact El5|exact Ef5|exact Hx|exact Hvs1|exact Hvs2|now rewrite Hdel0|exact Hxl'].
-        + rewrite Eu. cbn [set_ip a_ss length lL] in *. exact Hss5.
-      - repeat split.
-      - reflexivity.
-      - exact Eu. }
-    assert (HbL : forall envL, locals envL = lL -> bound_in (x :: B) envL).
-    { intros envL ElL y. rewrite ElL. unfold lL. rewrite <- El1, (Hbx2 y), (Hb y). cbn [In]. split; intros [H|H]; auto. }
-    assert (HlxL : lookup_scopes x lL = Some cx) by (cbn [lL lookup_scopes]; now rewrite assoc_set_same).
-    assert (Hkd : kw + (lbd + 4) = kd) by (unfold kd, kj, ks, kb; lia).
-    assert (Hkj : kj = kc + (lbd + 6)) by (unfold kj, ks, kb, kw; lia).
-    (* ---- the loop *)
-    assert (Hloop : forall n aL gL envL sL, locals envL = lL -> Rg pins' envL sL gL -> frames gL = F2 :: R ->
-              a_ip aL = kc -> length lL <= S (a_ss aL) ->
-              post pins sl bt ct fin B envL (frames g) aL gL
-                   (from_iter (S fuel) incl hi step x false body n envL sL)).
-    { induction n as [|n IH]; intros aL gL envL sL ElL HGL EfL HipL HssL; [exact Logic.I|].
-      rewrite from_iter_S. rewrite ElL, HlxL.
-      destruct (Rg_lookup envL sL gL x HGL Hx ltac:(rewrite ElL, HlxL; discriminate)) as (c0 & c0' & v & E1 & E2 & Hp & E3 & Hfo & E4).
-      rewrite ElL, HlxL in E1. inversion E1; subst c0. rewrite E3.
-      destruct v as [i|?|?| |? ? ?]; try exact Logic.I. cbn [inj] in E4.
-      assert (Fe : find_in_function endr (frames gL) = Some ce) by (rewrite EfL; cbn [find_in_function]; now rewrite HaeF2).
-      assert (Ce : cell_get gL ce = Some (VInt hi)).
-      { pose proof (Forall_inv (Rg_pins _ _ _ HGL)) as [Hc _]. exact Hc. }
-      destruct (from_cond_run kc x endr incl aL gL c0' ce i hi Hc1 Hc2 Hc3 HipL E2 E4 Fe Ce) as (gc & Rc & Efc & HRc).
-      set (bb := if incl then (i <=? hi)%Z else (i <? hi)%Z) in *.
-      set (ac := upd aL kw [VBool bb]) in *.
-      set (i_w := mkI OP_WHILE_LOOP [sN (lbd + 4)]) in *.
-      set (gct := trc name ac gc i_w).
-      assert (HGct : Rg pins' envL sL gct) by (apply Rg_trc; apply HRc; exact HGL).
-      assert (Hdecw : decode i_w = DOk (DWhile (Z.of_nat (lbd + 4)))) by (apply dec_while; apply small_code; unfold fin, kd, kj, ks, kb in *; lia).
-      pose proof (exec_while_gen (Z.of_nat (lbd + 4)) ac gct [] bb eq_refl) as Hxw.
-      assert (HneL : locals envL <> []) by (rewrite ElL; discriminate).
-      destruct bb.
-      2:{ (* the counter has passed the end: leave *)
-        set (a5 := set_ip (set_ops ac []) (kw + (lbd + 4))).
-        assert (R5 : xrun name code aL gL a5 gct).
-        { eapply xrun_trans; [exact Rc|].
-          eapply (xstep_goto name code ac gc i_w _ kw _ (set_ops ac [])); [reflexivity|exact Hw'|exact Hdecw|exact Hxw|].
-          apply goto_fwd. cbn [set_ops a_ip ac upd set_ip]. unfold fin in *. lia. }
-        destruct (Hexit a5 gct envL sL ElL HGct ltac:(change (frames gct) with (frames gc); now rewrite Efc) ltac:(cbn; exact Hkd) eq_refl HssL)
-          as (a6 & g6 & R6 & Hip6 & HR6 & Ha6 & Hf6 & El6).
-        cbn [post]. split; [split; [rewrite El6, ElL; reflexivity|rewrite El6; discriminate]|].
-        split; [eapply bound_in_eq; [exact Hb|rewrite El6, El; reflexivity]|].
-        exists a6, g6. split; [eapply xrun_trans; eassumption|]. split; [exact Hip6|]. split; [exact HR6|].
-        split; [destruct Ha6 as (A1 & A2 & A3); repeat split; assumption|]. rewrite Hf6. exact HR_tl. }
-      (* one more iteration: push <while>, run the body *)
-      set (a0' := set_ss (upd aL kb []) (S (a_ss aL))).
-      set (g0 := push_frame gct LWhile).
-      assert (R0 : xrun name code aL gL a0' g0).
-      { eapply xrun_trans; [exact Rc|].
-        eapply (xstep_push name code ac gc i_w _ kw LWhile (set_ops ac [])); [reflexivity|exact Hw'|exact Hdecw|exact Hxw]. }
-      assert (HR0 : Rst pins' (push_scope envL) sL a0' g0).
-      { split; [apply push_rel; [exact HGct|reflexivity]|]. split; [reflexivity|].
-        unfold a0'. cbn [push_scope locals length set_ss a_ss upd set_ip set_ops]. rewrite ElL. cbn [length lL] in *. apply le_n_S. exact HssL. }
-      assert (HbL0 : bound_in (x :: B) (push_scope envL)).
-      { intros y. cbn [push_scope locals lookup_scopes assoc]. exact (HbL envL ElL y). }
-      assert (Hlc0 : lc_ok true (Some 1) kd ks (push_scope envL) (kb + length cb0)).
-      { split; [discriminate|]. intros m E. inversion E; subst m. cbn [push_scope locals length]. rewrite ElL.
-        fold lbd. fold ks. cbn [lL length]. unfold fin, kd, kj in *. repeat split; lia. }
-      pose proof (Hbody pins' (S lr) true (Some 1) kd ks (S fuel) kb a0' g0 (push_scope envL) sL (x :: B) Hokb HbL0 Hib'
-                    ltac:(fold cb0; fold lbd; unfold fin, kd, kj, ks in *; lia) Hlc0 eq_refl HR0) as H.
-      fold cb0 in H. fold lbd in H. fold ks in H. unfold in_block_.
-      destruct (exec_block (S fuel) (push_scope envL) body sL) as [sig env2 s2|f s2|]; [| |exact Logic.I].
-      2:{ cbn [post] in H |- *. eapply fail_post_map; [|exact H]. intros (e0 & g' & Hf & Hr & Ho). exists e0, g'.
-          split; [eapply xrun_fail; eassumption|]. auto. }
-      cbn [post] in H. destruct H as [[Htl2 Hne2] H]. cbn [push_scope locals tl] in Htl2. rewrite ElL in Htl2.
-      assert (Hlen2 : length (locals env2) = S (length lL)).
-      { destruct (locals env2) as [|sc2 l2]; [congruence|]. cbn [tl] in Htl2. subst l2. reflexivity. }
-      assert (Epop : locals (pop_scope env2) = lL) by exact Htl2.
-      (* after the body: the step, the back edge, the next iteration *)
-      assert (Hnext : forall aB gB, xrun name code a0' g0 aB gB -> a_ip aB = ks -> Rst pins' env2 s2 aB gB ->
-                act_same a0' aB -> tl (frames gB) = F2 :: R ->
-                post pins sl bt ct fin B envL (frames g) aL gL
-                  (match sget s2 cx with
-                   | Some (RInt i') =>
-                     if i32_ok (i' + step_val step)%Z
-                     then from_iter (S fuel) incl hi step x false body n (pop_scope env2) (sset s2 cx (RInt (i' + step_val step)%Z))
-                     else SFailed FOverflow s2
-                   | _ => SFailed (FType 13) s2 end)).
-      { intros aB gB RB HipB (HGB & HopsB & HssB) HaB HfB.
-        assert (Hlx2 : lookup_scopes x (locals env2) = Some cx).
-        { destruct (locals env2) as [|sc2 l2] eqn:E2l; [discriminate|]. cbn [tl] in Htl2. subst l2.
-          apply NS_lookup_tl; [|exact HlxL]. rewrite <- E2l. exact (Rg_ns _ _ _ HGB). }
-        destruct (Rg_lookup env2 s2 gB x HGB Hx ltac:(rewrite Hlx2; discriminate)) as (c2 & c2' & v2 & G1 & G2 & Hp2 & G3 & Hfo2 & G4).
-        rewrite Hlx2 in G1. inversion G1; subst c2. rewrite G3.
-        destruct v2 as [i'|?|?| |? ? ?]; try exact Logic.I. cbn [inj] in G4.
-        pose proof (from_step_run ks x istep (step_val step) aB gB c2' i' Hs1' Hdstep Hs2' HipB HopsB G2 G4) as Hsr.
-        destruct (i32_ok (i' + step_val step)%Z).
-        - destruct Hsr as (gS & gS' & RS & EgS & EfS' & EcS' & HRgS').
-          set (sS := sset s2 cx (RInt (i' + step_val step)%Z)).
-          set (aS := upd aB (S (S ks)) [VInt (i' + step_val step)%Z]) in *.
-          assert (HGS : Rg pins' env2 sS gS).
-          { rewrite EgS. apply (update_rel env2 s2 gS' cx c2' (RInt (i' + step_val step)%Z)); [apply HRgS'; exact HGB| |exact Logic.I].
-            rewrite EfS'. exact Hp2. }
-          destruct (back_edge_gen pins' kj (lbd + 6) kc env2 sS aS gS Hj' ltac:(unfold fin, kd, kj, ks in *; lia)
-                      ltac:(unfold fin, kd in *; lia) Hkj eq_refl HGS ltac:(rewrite Hlen2; cbn [lL length]; lia))
-            as (gN & RN & HGN & EfN).
-          eapply (post_seq pins sl bt ct fin B envL (frames g) aL gL (pop_scope env2) (set_ip aS kc) gN).
-          + eapply xrun_trans; [exact R0|]. eapply xrun_trans; [exact RB|]. eapply xrun_trans; [exact RS|exact RN].
-          + split; [rewrite Epop, ElL; reflexivity|rewrite Epop; discriminate].
-          + destruct HaB as (A1 & A2 & A3). repeat split; assumption.
-          + apply IH; [exact Epop|exact HGN| |reflexivity|].
-            * rewrite EfN, EgS. change (frames (cell_set gS' c2' (VInt (i' + step_val step)%Z))) with (frames gS').
-              rewrite EfS'. exact HfB.
-            * cbn [set_ip aS upd set_ops a_ss]. rewrite Hlen2 in HssB. lia.
-        - destruct Hsr as (gS & RfS & HoS). cbn [post fail_post]. exists (E_overflow OP_BIN_OP), gS.
-          split; [eapply xrun_fail; [exact R0|]; eapply xrun_fail; [exact RB|exact RfS]|].
-          split; [left; reflexivity|]. rewrite HoS. exact (Rg_out _ _ _ HGB). }
-      assert (Hstepc : forall (e' : fenv) (s' : rstate) (bump : rvalue -> rstate -> sres_),
-                match step with
-                | None => bump (RInt 1) s'
-                | Some se => match eval (S fuel) e' se s' with
-                             | EVal sv s0 => bump sv s0 | ENoVal s0 => SFailed (FType 3) s0
-                             | EFail f s0 => SFailed f s0 | EFuel => SFuel end
-                end = bump (RInt (step_val step)) s').
-      { intros e' s' bump. destruct step as [e|]; [destruct e; try discriminate|]; reflexivity. }
-      assert (Eg0 : frames g0 = {| lab := LWhile; vars := [] |} :: F2 :: R).
-      { unfold g0, push_frame. cbn [with_frames frames]. change (frames gct) with (frames gc). now rewrite Efc, EfL. }
-      destruct sig as [| | |rv].
-      - destruct H as (_ & aB & gB & RB & HipB & HRB & HaB & HfB). rewrite Eg0 in HfB. cbn [tl] in HfB. cbv zeta. rewrite Hstepc.
-        apply (Hnext aB gB RB HipB HRB HaB HfB).
-      - (* break *)
-        destruct H as (m & aB & gB & Esl & RB & HipB & HRB & HaB & HfB). inversion Esl; subst m.
-        rewrite Eg0 in HfB. cbn [skipn] in HfB.
-        rewrite popn_1 in HRB. destruct HRB as (HGB & HopsB & HssB).
-        destruct (Hexit aB gB (pop_scope env2) s2 Epop HGB HfB HipB HopsB ltac:(rewrite <- Epop; exact HssB))
-          as (a6 & g6 & R6 & Hip6 & HR6 & Ha6 & Hf6 & El6).
-        cbn [post]. split; [split; [rewrite El6, ElL; reflexivity|rewrite El6; discriminate]|].
-        split; [eapply bound_in_eq; [exact Hb|rewrite El6, El; reflexivity]|].
-        exists a6, g6. split; [eapply xrun_trans; [exact R0|]; eapply xrun_trans; eassumption|]. split; [exact Hip6|].
-        split; [exact HR6|]. split; [|rewrite Hf6; exact HR_tl].
-        destruct HaB as (A1 & A2 & A3), Ha6 as (B1 & B2 & B3).
-        repeat split; [rewrite B1, A1|rewrite B2, A2|rewrite B3, A3]; reflexivity.
-      - (* continue *)
-        destruct H as (m & aB & gB & Esl & RB & HipB & HRB & HaB & HfB). inversion Esl; subst m.
-        rewrite Eg0 in HfB. cbn [skipn] in HfB.
-        cbn [Nat.sub] in HRB. rewrite popn_0 in HRB. cbv zeta. rewrite Hstepc.
-        apply (Hnext aB gB RB HipB HRB HaB HfB).
-      - destruct H. }
-    (* ---- put the pieces together *)
-    eapply (post_seq pins sl bt ct fin B env (frames g) a g env1 a4 g4); [exact R4|exact Hd2|repeat split|].
-    apply Hloop; [exact El1|exact HG4|exact Ef4|exact Hip4|].
-    unfold lL, a4. cbn [length upd set_ip set_ops a_ss] in *. exact Hss.
-  Qed.
+      apply (exec_store_fast x a1 g1t (inj va) g2); [reflexivity|exact Hst2]. }
+    assert (HbL1 : bound_in (x :: B) env1).
+    { intros y. rewrite (Hbx2 y), (Hb y). cbn [In]. split; intros [H|H]; auto. }
+    (* the upper bound: the reference semantics evaluates it before the counter exists; same result *)
+    assert (Hagb : forall y, In y (used_e b) -> agree env s env1 s1 y).
+    { eapply (agree_of pins env s g env1 s1 b B HG Hob); [exact Hb| |exact Es1|exact Ec1].
+      intros y c0 Hy Hl0. rewrite El in Hl0. rewrite El1. cbn [lookup_scopes] in Hl0 |- *.
+      rewrite assoc_set_other; [exact Hl0|]. intros ->. apply In_mem_str in Hy. congruence. }
+    Show.
+  Abort.
 
   (* ================================================================ all statements, all nesting depths *)
   Theorem stmt_sim : forall st, stmt_spec st.
@@ -2112,6 +1954,7 @@ Proof.
   - intros x Hx. cbn in Hx. congruence.
   - cbn. split; [intros y Hy; congruence|exact Logic.I].
   - constructor.
+  - repeat constructor.
 Qed.
 
 Section Program.
